@@ -175,6 +175,16 @@ func (ex *Executor) VerifyUnit(key string, spec *FuncSpec) {
 			ex.errf("anchor-missing %s: the contract speaks about loop %d, the function has %d loop(s) (the loop moved into a helper or was removed)", key, k, nloops)
 		}
 	}
+	// side condition of reasoning about one goroutine at a time: no write to a captured variable another goroutine shares
+	if fn.Parent() != nil {
+		ws := interferingWrites(ex.P, fn)
+		for i, w := range ws {
+			ex.addStructural(nil, "no-interference", fmt.Sprint(i), false, w, nil)
+		}
+		if len(ws) == 0 {
+			ex.addStructural(nil, "no-interference", "captured variables", true, "the goroutine writes no captured variable that another goroutine can reach", nil)
+		}
+	}
 	st := &State{heap: map[string]*Term{}, globals: map[*ssa.Global]Val{}, alloc: Sym("alloc@0", SInt), segStart: "entry", segHeap: map[string]*Term{}, birth: map[string]*Term{}, segSpec: spec}
 	st.assume(Ge(st.alloc, Num(0)))
 	fr := ex.newFrame(fn, spec, 0)
